@@ -446,6 +446,241 @@ Definition dec_strs (j : J) : option (list string) :=
   | _ => None
   end.
 
+(* ------------------------------------------------------------------ explain
+   Everything Plan::explain states that is determined by the plan (planner.rs: explain, build_plan):
+   per step the 1-based index, node type, is_barrier, cost hint and the facts of the description;
+   the summary cost_estimate {barriers, total_ops, stateless_ops, source_size}; suggested_partitions
+   and the list of optimisation decisions.  `expl_*` compute what explain must say from a chain
+   DESCRIPTOR and an operator table (cost hint / all-three-flags per operator id); the same
+   functions are used with the model's descriptors and table (agree) and with the observed
+   descriptors of the chain that ran and the flags read off the real operator objects (prop). *)
+Inductive edetail :=
+| EDNone | EDUnparsed | EDSrc (n : option nat) | EDOps (n : nat) (costs : list nat) | EDCv (lg : bool)
+| EDFan (f : option nat).
+Record estep := { es_idx : nat; es_type : string; es_barrier : bool; es_cost : nat;
+                  es_detail : edetail }.
+Inductive eopt :=
+| EOFused (before after n : nat) | EOReordered (n : nat) (by_cost : bool) | EOLifted (rb : bool)
+| EODropped (n : nat) | EOParts (len : option nat) (p : nat).
+Record eexplain := { ee_steps : list estep; ee_barriers : nat; ee_total : nat; ee_stateless : nat;
+                     ee_source : option nat; ee_suggested : option nat; ee_opts : list eopt }.
+
+Definition dec_onat (j : J) : option (option nat) :=
+  match j with JN => Some None | _ => option_map Some (dec_nat j) end.
+Definition dec_edetail (j : J) : option edetail :=
+  match j with
+  | JN => Some EDUnparsed
+  | JL [JS t] => if tag_is t "none" then Some EDNone
+                 else if tag_is t "src_unknown" then Some (EDSrc None) else None
+  | JL [JS t; a] =>
+      if tag_is t "src" then option_map (fun n => EDSrc (Some n)) (dec_nat a)
+      else if tag_is t "cv" then option_map EDCv (jbool a)
+      else if tag_is t "fanout" then option_map EDFan (dec_onat a)
+      else None
+  | JL [JS t; a; b] =>
+      if tag_is t "ops" then
+        match dec_nat a, dec_nats b with Some n, Some cs => Some (EDOps n cs) | _, _ => None end
+      else None
+  | _ => None
+  end.
+Definition dec_estep (j : J) : option estep :=
+  match j with
+  | JL [i; JS ty; JB b; c; d] =>
+      match dec_nat i, dec_nat c, dec_edetail d with
+      | Some i', Some c', Some d' =>
+          Some {| es_idx := i'; es_type := ty; es_barrier := b; es_cost := c'; es_detail := d' |}
+      | _, _, _ => None
+      end
+  | _ => None
+  end.
+Definition dec_eopt (j : J) : option eopt :=
+  match j with
+  | JL [JS t; a] =>
+      if tag_is t "lifted" then option_map EOLifted (jbool a)
+      else if tag_is t "dropped" then option_map EODropped (dec_nat a) else None
+  | JL [JS t; a; b] =>
+      if tag_is t "reordered" then
+        match dec_nat a, jbool b with Some n, Some c => Some (EOReordered n c) | _, _ => None end
+      else if tag_is t "parts" then
+        match dec_onat a, dec_nat b with Some l, Some p => Some (EOParts l p) | _, _ => None end
+      else None
+  | JL [JS t; a; b; c] =>
+      if tag_is t "fused" then
+        match dec_nat a, dec_nat b, dec_nat c with
+        | Some x, Some y, Some z => Some (EOFused x y z)
+        | _, _, _ => None
+        end
+      else None
+  | _ => None
+  end.
+Definition dec_explain (j : J) : option eexplain :=
+  match j with
+  | JL [JL steps; JL [b; t; s; src]; sug; JL opts] =>
+      match omap dec_estep steps, dec_nat b, dec_nat t, dec_nat s, dec_onat src, dec_onat sug,
+            omap dec_eopt opts with
+      | Some st, Some b', Some t', Some s', Some src', Some sug', Some o' =>
+          Some {| ee_steps := st; ee_barriers := b'; ee_total := t'; ee_stateless := s';
+                  ee_source := src'; ee_suggested := sug'; ee_opts := o' |}
+      | _, _, _, _, _, _, _ => None
+      end
+  | _ => None
+  end.
+
+Definition d_barrier (d : ndesc) : bool :=
+  match d with DGbk | DCv _ | DCogroup | DCg _ => true | _ => false end.
+Definition nsum (l : list nat) : nat := fold_left Nat.add l 0.
+Definition d_cost (cost_of : nat -> nat) (d : ndesc) : nat :=
+  match d with
+  | DSrc => 1 | DSt ids => nsum (map cost_of ids) | DGbk => 100 | DCv _ => 80 | DCogroup => 150
+  | DCg _ => 90 | DMat => 1
+  end.
+Definition detail_ok (cost_of : nat -> nat) (d : ndesc) (e : edetail) : bool :=
+  match e, d with
+  | EDUnparsed, _ => true        (* the wording is not recognised: no fact is claimed *)
+  | EDSrc _, DSrc => true        (* the size is checked against the source itself, below *)
+  | EDOps n cs, DSt ids => Nat.eqb n (List.length ids) && nat_list_eqb cs (map cost_of ids)
+  | EDCv lg, DCv lg' => Bool.eqb lg lg'
+  | EDFan f, DCg f' => onat_eqb f f'
+  | EDNone, (DGbk | DCogroup | DMat) => true
+  | _, _ => false
+  end.
+Fixpoint expl_steps_ok (cost_of : nat -> nat) (i : nat) (ds : list ndesc) (es : list estep) : bool :=
+  match ds, es with
+  | [], [] => true
+  | d :: ds', e :: es' =>
+      Nat.eqb (es_idx e) (S i) && String.eqb (es_type e) (ndesc_name d)
+      && Bool.eqb (es_barrier e) (d_barrier d) && Nat.eqb (es_cost e) (d_cost cost_of d)
+      && detail_ok cost_of d (es_detail e) && expl_steps_ok cost_of (S i) ds' es'
+  | _, _ => false
+  end.
+Definition d_ops (d : ndesc) : nat := match d with DSt ids => List.length ids | _ => 0 end.
+Definition d_total (d : ndesc) : nat :=
+  match d with DSt ids => List.length ids | DSrc => 0 | _ => 1 end.
+Definition is_dst (d : ndesc) : bool := match d with DSt _ => true | _ => false end.
+Definition count_b {A} (f : A -> bool) (l : list A) : nat := List.length (filter f l).
+Definition expl_summary_ok (ds : list ndesc) (e : eexplain) : bool :=
+  Nat.eqb (ee_barriers e) (count_b d_barrier ds)
+  && Nat.eqb (ee_total e) (nsum (map d_total ds))
+  && Nat.eqb (ee_stateless e) (nsum (map d_ops ds)).
+
+(* the sizes the Source steps state, in order (None = not stated) *)
+Definition stated_sizes (es : list estep) : list (option (option nat)) :=
+  flat_map (fun e => if String.eqb (es_type e) "Source"
+                     then [match es_detail e with EDSrc n => Some n | _ => None end] else []) es.
+(* source_size of the summary is the size of the LAST Source step; checked where stated *)
+Definition summary_source_consistent (e : eexplain) : bool :=
+  match rev (stated_sizes (ee_steps e)) with
+  | [] => onat_eqb (ee_source e) None
+  | Some n :: _ => onat_eqb (ee_source e) n
+  | None :: _ => true
+  end.
+Fixpoint sizes_ok (model : list nat) (stated : list (option (option nat))) : bool :=
+  match model, stated with
+  | [], [] => true
+  | m :: model', s :: stated' =>
+      match s with Some n => onat_eqb n (Some m) | None => true end && sizes_ok model' stated'
+  | _, _ => false
+  end.
+Definition model_src_sizes (c : list node) : list nat :=
+  flat_map (fun n => match n with NB (BSource s) => [s_len s] | _ => [] end) c.
+
+(* the optimisation decisions build_plan records, from the eight descriptors of `passes` *)
+Definition expl_opts (safe : nat -> bool) (ds : list (list ndesc)) : list eopt :=
+  match ds with
+  | [d0; d1; _; _; _; d5; d6; d7] =>
+      let bb := count_b is_dst d0 in
+      let ba := count_b is_dst d1 in
+      (if ba <? bb then [EOFused bb ba (nsum (map d_ops d0))] else [])
+      ++ flat_map (fun d => match d with
+                            | DSt ids => if forallb safe ids && (1 <? List.length ids)
+                                         then [EOReordered (List.length ids) true] else []
+                            | _ => []
+                            end) d1
+      ++ (if desc_eqb d5 d6 then [] else [EOLifted true])
+      ++ (let k := List.length d6 - List.length d7 in if 0 <? k then [EODropped k] else [])
+  | _ => []
+  end.
+Definition eopt_eqb (a b : eopt) : bool :=
+  match a, b with
+  | EOFused x y z, EOFused x' y' z' => Nat.eqb x x' && Nat.eqb y y' && Nat.eqb z z'
+  | EOReordered n c, EOReordered n' c' => Nat.eqb n n' && Bool.eqb c c'
+  | EOLifted r, EOLifted r' => Bool.eqb r r'
+  | EODropped n, EODropped n' => Nat.eqb n n'
+  | EOParts l p, EOParts l' p' => onat_eqb l l' && Nat.eqb p p'
+  | _, _ => false
+  end.
+Fixpoint eopts_eqb (a b : list eopt) : bool :=
+  match a, b with
+  | [], [] => true
+  | x :: a', y :: b' => eopt_eqb x y && eopts_eqb a' b'
+  | _, _ => false
+  end.
+(* build_plan: the pass decisions, then PartitionSuggestion iff a partition count is suggested;
+   the count itself depends on the machine (num_cpus): only >= 2 (hw.max(2)) is required.
+   `first_len` = Some l when the length of the raw chain's first-node Source is known to the caller *)
+Definition expl_opts_ok (safe : nat -> bool) (ds : list (list ndesc)) (first_is_src : bool)
+           (first_len : option nat) (e : eexplain) : bool :=
+  let expected := expl_opts safe ds in
+  match ee_suggested e with
+  | None => negb first_is_src && eopts_eqb expected (ee_opts e)
+  | Some p =>
+      first_is_src && (2 <=? p)
+      && match rev (ee_opts e) with
+         | EOParts l p' :: r =>
+             Nat.eqb p p' && eopts_eqb expected (rev r)
+             && match first_len, l with
+                | Some m, Some n => Nat.eqb m n
+                | Some _, None => false
+                | None, _ => true
+                end
+         | _ => false
+         end
+  end.
+(* a bare chain handed to Plan::explain (synthetic cases): nothing suggested, nothing recorded *)
+Definition expl_bare_ok (e : eexplain) : bool :=
+  onat_eqb (ee_suggested e) None && match ee_opts e with [] => true | _ => false end.
+
+Definition first_is_source (d : list ndesc) : bool :=
+  match d with DSrc :: _ => true | _ => false end.
+(* explain against one descriptor + operator table *)
+Definition expl_chain_ok (cost_of : nat -> nat) (d : list ndesc) (e : eexplain) : bool :=
+  expl_steps_ok cost_of 0 d (ee_steps e) && expl_summary_ok d e && summary_source_consistent e.
+
+(* operator tables *)
+Definition m_cost (raw : list node) (id : nat) : nat :=
+  match nth_error (chain_ops raw) id with Some o => op_cost o | None => 0 end.
+Definition m_safe (raw : list node) (id : nat) : bool :=
+  match nth_error (chain_ops raw) id with
+  | Some o => op_vo o && op_kp o && op_rs o
+  | None => false
+  end.
+Definition o_cost (ois : list opinfo) (id : nat) : nat :=
+  match nth_error ois id with Some i => oi_cost i | None => 0 end.
+Definition o_safe (ois : list opinfo) (id : nat) : bool :=
+  match nth_error ois id with Some i => oi_vo i && oi_kp i && oi_rs i | None => false end.
+
+(* agree: explain says what the model plan determines (incl. every Source's size) *)
+Definition explain_agrees (raw : list node) (planned : bool) (e : eexplain) : bool :=
+  let ru := map op_uid (chain_ops raw) in
+  let mplan := optimise raw in
+  let mds := map (map (desc_of ru)) (passes raw) in
+  expl_chain_ok (m_cost raw) (map (desc_of ru) mplan) e
+  && strs_eqb (map kind_name (explain mplan)) (map es_type (ee_steps e))
+  && sizes_ok (model_src_sizes mplan) (stated_sizes (ee_steps e))
+  && (if planned
+      then expl_opts_ok (m_safe raw) mds (first_is_source (nth 0 mds []))
+                        (match raw with NB (BSource s) :: _ => Some (s_len s) | _ => None end) e
+      else expl_bare_ok e).
+(* prop: explain describes the chain that ran (observed descriptor `plan_d`, real operators' hints)
+   and the decisions match the passes that changed the observed chain *)
+Definition explain_prop (ds : list (list ndesc)) (ois : list opinfo) (plan_d : list ndesc)
+           (planned : bool) (e : eexplain) : bool :=
+  expl_chain_ok (o_cost ois) plan_d e
+  && (if planned
+      then expl_opts_ok (o_safe ois) ds (first_is_source (nth 0 ds []))
+                        (match stated_sizes (ee_steps e) with Some n :: _ => n | _ => None end) e
+      else expl_bare_ok e).
+
 Definition dec_obss (j : J) : option (list obs) :=
   match j with JL l => omap dec_obs l | _ => None end.
 Definition dec_descs (j : J) : option (list (list ndesc)) :=
@@ -587,19 +822,19 @@ Fixpoint dec_nodes (defs : list dynop) (l : list J) : option (list node) :=
 (* a chain that is the backwalk of a REAL pipeline: additionally build_plan / explain / run_collect *)
 Definition judge_planned (ex : cmp_mode) (term : tag) (raw : list node) (parts : nat)
            (ds : list (list ndesc)) (ois : list opinfo) (os : list obs)
-           (plan_d : list ndesc) (exp : list string) (cs cp : obs) : verdict :=
+           (plan_d : list ndesc) (exp : eexplain) (cs cp : obs) : verdict :=
   let ru := map op_uid (chain_ops raw) in
   let c := judge_common ex term raw parts ds ois os in
   let mplan := optimise raw in
   let agree_extra :=
       desc_eqb (map (desc_of ru) mplan) plan_d
-      && strs_eqb (map kind_name (explain mplan)) exp
+      && explain_agrees raw true exp
       && obs_agree ex (m_seq term mplan) cs
       && obs_agree ex (m_par term mplan parts) cp in
   let prop_extra :=
       (* build_plan = the four passes composed; explain = its kinds; run_collect runs it *)
       desc_eqb plan_d (optimised_desc ds)
-      && strs_eqb (map ndesc_name plan_d) exp
+      && explain_prop ds ois plan_d true exp
       && match os with
          | [so; _; po; _] => obs_agree ex so cs && obs_agree ex po cp
          | _ => false
@@ -613,7 +848,7 @@ Definition check_C03 (kind : string) (input output : J) : verdict :=
     match input, output with
     | JL [jt; JL jnodes; jp], JL [JS ok; jd; jo; je; JL [jx; jexp]] =>
         match dec_tagname jt, dec_nodes [] jnodes, dec_nat jp,
-              dec_descs jd, dec_opinfos jo, dec_obss je, dec_obss jx, dec_strs jexp,
+              dec_descs jd, dec_opinfos jo, dec_obss je, dec_obss jx, dec_explain jexp,
               omap dec_nkind jnodes with
         | Some term, Some raw, Some parts, Some ds, Some ois, Some os, Some pre, Some exp, Some ks =>
             if tag_is ok "ok" then
@@ -622,8 +857,8 @@ Definition check_C03 (kind : string) (input output : J) : verdict :=
               let c := judge_common ex term raw parts ds ois os in
               finish c
                      (prefixes_agree pm raw (mid_mats 0 raw) pre
-                      && strs_eqb (map kind_name (explain (optimise raw))) exp)
-                     (strs_eqb (map ndesc_name (optimised_desc ds)) exp)
+                      && explain_agrees raw false exp)
+                     (explain_prop ds ois (optimised_desc ds) false exp)
                      (sem_prop ex pm term raw os pre)
             else malformed
         | _, _, _, _, _, _, _, _, _ => malformed
@@ -638,7 +873,7 @@ Definition check_C03 (kind : string) (input output : J) : verdict :=
         match dec_src js, dec_steps jst, dec_nat jp,
               dec_descs jd, dec_opinfos jo, dec_obss je with
         | Some s, Some steps, Some parts, Some ds, Some ois, Some os =>
-            match dec_desc jplan, dec_strs jexp, dec_obss jcol with
+            match dec_desc jplan, dec_explain jexp, dec_obss jcol with
             | Some plan_d, Some exp, Some [cs; cp] =>
                 if tag_is ok "ok" then
                   let cst := compile s steps in
@@ -660,7 +895,7 @@ Definition check_C03 (kind : string) (input output : J) : verdict :=
         match dec_tagname jt, dec_nodes [] jnodes, dec_nat jp,
               dec_descs jd, dec_opinfos jo, dec_obss je, omap dec_nkind jnodes with
         | Some term, Some raw, Some parts, Some ds, Some ois, Some os, Some ks =>
-            match dec_desc jplan, dec_strs jexp, dec_obss jcol with
+            match dec_desc jplan, dec_explain jexp, dec_obss jcol with
             | Some plan_d, Some exp, Some [cs; cp] =>
                 if tag_is ok "ok" then
                   judge_planned (mode_of_kinds ks) term raw parts ds ois os plan_d exp cs cp
